@@ -424,15 +424,16 @@ fn check_pure(scratch: &Path, c: &Case) -> Check {
                 }
                 ("docker", Some("rm")) => {
                     let p = pflag_parse(&a[1..], &DOCKER_RM).map_err(|er| Fail::new("C17:docker-rm-unparsable", format!("{er}: {a:?}")))?;
-                    ensure!(p.positionals.len() == 1 && p.flags.iter().any(|f| f.0 == "force"), "C17:docker-rm", "{a:?}");
+                    // how and when resources are removed is C16's business; here only: the line decodes and names something
+                    ensure!(!p.positionals.is_empty(), "C17:docker-rm", "{a:?}");
                 }
                 ("docker", Some("rmi")) => {
                     let p = pflag_parse(&a[1..], &DOCKER_RMI).map_err(|er| Fail::new("C17:docker-rmi-unparsable", format!("{er}: {a:?}")))?;
-                    ensure!(p.positionals == vec![img.clone()], "C17:docker-rmi", "{a:?}");
+                    ensure!(p.positionals.contains(&img), "C17:docker-rmi", "{a:?}");
                 }
                 ("docker", Some("volume")) => {
                     let p = pflag_parse(&a[2..], &DOCKER_VOLUME_RM).map_err(|er| Fail::new("C17:docker-volume-unparsable", format!("{er}: {a:?}")))?;
-                    ensure!(p.positionals.len() == 2, "C17:docker-volume-rm", "{a:?}");
+                    ensure!(!p.positionals.is_empty(), "C17:docker-volume-rm", "{a:?}");
                 }
                 ("docker", Some("logs")) => {
                     pflag_parse(&a[1..], &DOCKER_LOGS).map_err(|er| Fail::new("C17:docker-logs-unparsable", format!("{er}: {a:?}")))?;
